@@ -4235,8 +4235,9 @@ write_function_for_name(ostream &out, Object *obj,
           << "." << methodNameFromCppName(remap, cClassName, false) << "\")) {\n";
     }
     else {
+      // This raises a TypeError if self has no C++ object (yet, or any more).
       out << "  " << cClassName << " *local_this = nullptr;\n"
-          << "  if (!DtoolInstance_GetPointer(self, local_this, Dtool_" << ClassName << ")) {\n";
+          << "  if (!Dtool_Call_ExtractThisPointer(self, Dtool_" << ClassName << ", (void **)&local_this)) {\n";
     }
 
     error_return(out, 4, return_flags);
